@@ -8,7 +8,7 @@ import traceback
 def run():
     ok = True
     tests = []
-    for name in ('vf.engines.selftests', 'vf.engines.selftests_faultx'):
+    for name in ('vf.engines.selftests', 'vf.engines.selftests_faultx', 'vf.engines.enumx'):
         try:
             mod = importlib.import_module(name)
             tests += [(f'{name}.{k}', v) for k, v in sorted(vars(mod).items()) if k.startswith('selftest_')]
